@@ -152,6 +152,13 @@ func run(seed int64, n int, dir string, _ []string) {
 			"SELECT DISTINCT b, c FROM big",
 			"SELECT id FROM big ORDER BY b, a DESC, id",
 			"SELECT x.id, y.id FROM big x JOIN small y ON x.b = y.b",
+			// the short table drives (the long one is the joined table), every join kind and spelling
+			"SELECT x.id, y.id FROM small y JOIN big x ON x.b = y.b",
+			"SELECT x.id, y.id FROM small y INNER JOIN big x USING (b)",
+			"SELECT x.id, y.id FROM small y LEFT JOIN big x ON x.b = y.b",
+			"SELECT x.id, y.id FROM small y FULL JOIN big x ON x.b = y.b AND x.id < 500",
+			"SELECT x.id, y.id FROM small y, big x WHERE x.b = y.b AND x.id < 300",
+			"SELECT x.id, y.id FROM small y NATURAL JOIN (SELECT id AS xid, b FROM big) x2 JOIN big x ON x.id = x2.xid",
 			"SELECT x.id, y.id FROM big x LEFT JOIN small y ON x.b = y.b AND y.d = 'p'",
 			"SELECT x.id, y.id FROM small y RIGHT JOIN big x ON x.b = y.b",
 			"SELECT x.id, y.id FROM big x FULL JOIN small y ON x.b = y.b",
